@@ -1573,7 +1573,11 @@ pub async fn handle_cache(
                     }
                 };
 
-                vary::apply_header(&mut response, vary, future.is_some());
+                // same condition as in the arm below: a response streamed without a length
+                // gets no `vary` header, whether or not the page has a cached item
+                if future.as_ref().map_or(true, |f| f.1.is_some()) {
+                    vary::apply_header(&mut response, vary, future.is_some());
+                }
 
                 let identity_body = Bytes::clone(resp.get_identity().body());
 
